@@ -64,12 +64,12 @@ CHECKS["C18"] = dict(
 PIPENOTE = "Trusted: TLC; fake source/targets and the tagged polygon function of the harness; events logged under one mutex by the stepping process, hand-overs inferred by TLC with unbounded channel capacity (so buffered refactorings are not rejected). Bounded design model: <=3 features x <=3 targets x all outcome maps, capacity 0 and 2, 1-2 tables."
 CHECKS["C10"] = dict(
     category="model_checking", design_ref="DESIGN.md §7 C10",
-    technique="TLA+ model of the goroutine pipeline (Pipeline.tla) checked exhaustively by TLC; event logs of the real ProcessFeatures validated against PipelineTrace.tla (payload, order, routing guards; unlogged hand-overs inferred); TLC-generated schedules (PipelineSched.tla, -simulate) enforced on the real goroutines through gates and the resulting log validated again",
+    technique="TLA+ model of the goroutine pipeline (Pipeline.tla) checked exhaustively by TLC; event logs of the real ProcessFeatures validated against PipelineTrace.tla (payload, order, routing guards; unlogged hand-overs inferred); TLC-generated schedules (PipelineSched.tla, -simulate) enforced on the real goroutines through gates and the resulting log validated again; Apalache proves the inductive invariant of the counting skeleton (PipelineInt.tla, refined by Pipeline.tla) for tables of any length and every channel capacity",
     text="TLC explores every interleaving of reader, snapper, router and writers for all outcome maps of small streams (prefix / at-return invariants), and every recorded run of the real pipeline (random streams of polygons, multipolygons and other geometries, 1-5 targets, GOMAXPROCS 1-16, delay policies) must be a behaviour of the same specification, with attribute tuples, geometry class and per-target geometry tags checked at every delivery.",
     note=PIPENOTE)
 CHECKS["C11"] = dict(
     category="model_checking", design_ref="DESIGN.md §7 C11",
-    technique="TLC: safety, deadlock freedom and termination under weak fairness of Pipeline.tla (unbuffered and buffered); trace validation of real runs where Return is only enabled after every TgtDone, with hang / leaked-goroutine / panic facts never accepted; one writer's completion is held to expose a premature return; TLC-generated schedules (PipelineSched.tla) enforced on the real goroutines through gates - a gate that is never reached within 5 s is a Hang; runs with the real GeoPackage source and targets from a race-detector build (GpkgPipeTrace.tla; no return within 120 s is a hang)",
+    technique="TLC: safety, deadlock freedom and termination under weak fairness of Pipeline.tla (unbuffered and buffered); trace validation of real runs where Return is only enabled after every TgtDone, with hang / leaked-goroutine / panic facts never accepted; one writer's completion is held to expose a premature return; TLC-generated schedules (PipelineSched.tla) enforced on the real goroutines through gates - a gate that is never reached within 5 s is a Hang; runs with the real GeoPackage source and targets from a race-detector build (GpkgPipeTrace.tla; no return within 120 s is a hang); Apalache: return-only-after-everything-is-done and no-send-on-a-closed-channel as consequences of the inductive invariant of PipelineInt.tla, for any stream length",
     text="Design: every interleaving for small constants including the caller's re-assignment of the table between runs. Code: each real run is validated against the trace specification; a run that does not finish within 20 s with its goroutines blocked in processing.* is recorded as a Hang event, goroutines left behind as a non-zero leak count - neither is a behaviour of the specification.",
     note=PIPENOTE + " Data-race freedom of the real GeoPackage writers is observed by the race detector in the C12/C13 drivers and logged as a fact.")
 
